@@ -1,6 +1,7 @@
 (* C12 — Layered user dictionaries keep ids, parts of speech and references straight.
    Only property theorems here; each is closed by `exact` of a lemma proved in Proofs/. *)
 From Coq Require Import List NArith ZArith.
+From SudachiVerif Require Generated.LexFacts.
 From SudachiVerif Require Import Model.Trie Model.WordIdTable Model.LexSet Proofs.TrieProofs Proofs.LexSetProofs.
 Import ListNotations.
 Open Scope N_scope.
@@ -14,6 +15,11 @@ Fact C12_fact_guards : guards_ok = true.
 Proof. vm_compute. reflexivity. Qed.
 (* the user-dictionary builder preloads only the system dictionary's own POS (the repaired rule) *)
 Fact C12_fact_preload : preload_ok = true.
+Proof. vm_compute. reflexivity. Qed.
+
+(* the builder resolves inline references and validates plain references `n` against the system dictionary only, also when
+   the dictionary it is given already holds user dictionaries (the second repaired rule; behaviour tested by the harness) *)
+Fact C12_fact_refs_system_only : Generated.LexFacts.refs_against_system_only = true.
 Proof. vm_compute. reflexivity. Qed.
 
 (* for ANY system dictionary, ANY plugin requests (allow/forbid, overlapping) and ANY stack of user dictionaries, each
